@@ -26,9 +26,9 @@ const (
 
 var UTC = time.UTC
 
-func Unix(sec, nsec int64) Time                 { return time.Unix(sec, nsec) }
-func UnixMilli(ms int64) Time                   { return time.UnixMilli(ms) }
-func ParseDuration(s string) (Duration, error)  { return time.ParseDuration(s) }
+func Unix(sec, nsec int64) Time                { return time.Unix(sec, nsec) }
+func UnixMilli(ms int64) Time                  { return time.UnixMilli(ms) }
+func ParseDuration(s string) (Duration, error) { return time.ParseDuration(s) }
 func Date(y int, m Month, d, h, mi, s, ns int, l *Location) Time {
 	return time.Date(y, m, d, h, mi, s, ns, l)
 }
